@@ -78,6 +78,9 @@ pub fn base_text(lay: &str, f0: &Value) -> String {
     if lay == "inner_compact" || lay == "inner_generous" {
         return model_structure(f0).iter().map(|e| e.iter().map(|r| styled_rel(r, lay == "inner_generous")).collect::<Vec<_>>().join(" | ")).collect::<Vec<_>>().join(", ");
     }
+    if lay == "comma_newline" {
+        return model_structure(f0).iter().map(|e| format!("{},\n", e.iter().map(super::rel::canon_rel).collect::<Vec<_>>().join(" | "))).collect::<Vec<_>>().join(" ");
+    }
     if lay == "pipe_newline" {
         return model_structure(f0).iter().map(|e| e.iter().map(super::rel::canon_rel).collect::<Vec<_>>().join(" |\n ")).collect::<Vec<_>>().join(", ");
     }
@@ -94,6 +97,13 @@ pub fn base_text(lay: &str, f0: &Value) -> String {
     }
 }
 
+/// number of empty comma-separated slots that lie between two non-empty ones
+fn interior_empties(text: &str) -> usize {
+    let slots: Vec<bool> = text.split(',').map(|s| s.trim().is_empty()).collect();
+    let first = slots.iter().position(|e| !*e);
+    let last = slots.iter().rposition(|e| !*e);
+    match (first, last) { (Some(a), Some(b)) if b > a => slots[a..b].iter().filter(|e| **e).count(), _ => 0 }
+}
 fn empties(text: &str, entries: usize, svs: usize) -> i64 {
     if text.trim().is_empty() { return 0; }
     let commas = debian_control::relations::Lexer::new(text).filter(|(k, _)| *k == debian_control::relations::SyntaxKind::COMMA).count();
@@ -262,6 +272,10 @@ fn replay(o: &mut Outcome, case: &Value, _seed: u64, persistent: bool) {
         // (3) separators are not duplicated or left dangling: the number of empty slots does not grow
         let after_empties = empties(&text, expected.len(), base_svs.len());
         if after_empties > before_empties.max(0) { o.v("C11", "separators", &api, "mismatch", &feats, &ctx, format!("surplus separators {} -> {}", before_empties, after_empties)); return; }
+        // (3b) ... and no empty slot appears BETWEEN two items (a trailing comma that is already there is the separator
+        // of an appended entry, not an extra one)
+        let (bi, ai) = (interior_empties(&before_text), interior_empties(&text));
+        if ai > bi { o.v("C11", "separators", &api, "mismatch", &feats, &ctx, format!("empty slots between items {} -> {}", bi, ai)); return; }
         // (4) entries not addressed keep their text
         let after_entries: Vec<String> = root.entries().map(|e| e.to_string().trim().to_string()).collect();
         let i = op["i"].as_u64().unwrap_or(0) as usize;
